@@ -12,7 +12,7 @@ import (
 
 func init() {
 	register("C43", []string{".", "./sstable/...", "./objstorage/...", "./internal/compact", "./internal/overlap", "./internal/manifest", "./wal", "./record", "./vfs/atomicfs", "./valsep"}, runC43)
-	propExplain["C43"] = "Decides error-discipline clauses of C43: (N1) wherever consumer code treats a nil result of a positioning call on an internal iterator as 'exhausted', every path from that nil edge to a return consults the iterator's Error() (or its consumed Close()) — an sstable iterator returns nil on a read error; (S1) after Finish or Abort was called on an objstorage.Writable no further method of it is reachable unless the variable was re-assigned; (E1) the error results of read and durability callees are never dropped; (O1) the user iterator's positioning methods short-circuit on a sticky error; (O2) a failed flush/compaction goes through the failure handler and never refreshes the read state. (E3) every engine function that classifies an error by identity (== a sentinel, record.IsInvalidRecord) receives it unwrapped: no function in the producers' static call trees (sticky error fields followed) returns a wrapped callee error. Does not decide result correctness under faults (behaviour)."
+	propExplain["C43"] = "Decides error-discipline clauses of C43: (N1) wherever consumer code treats a nil result of a positioning call on an internal iterator as 'exhausted', every path from that nil edge to a return consults the iterator's Error() (or its consumed Close()) — an sstable iterator returns nil on a read error; (S1) after Finish or Abort was called on an objstorage.Writable no further method of it is reachable unless the variable was re-assigned; (E1) the error results of read and durability callees are never dropped; (O1) the user iterator's positioning methods short-circuit on a sticky error; (O2) a failed flush/compaction goes through the failure handler and never refreshes the read state. (E3) every engine function that classifies an error by identity (== a sentinel, record.IsInvalidRecord) receives it unwrapped: no function in the producers' static call trees (sticky error fields followed) returns a wrapped callee error. (E4) an error held in a local variable is known nil at every point where the result of another call is stored into it (an earlier failure is never replaced by a later success), module-wide. Does not decide result correctness under faults (behaviour)."
 	propTechnique["C43"] = "SSA obligation-as-fact dataflow (nil-means-exhausted), typestate reachability, error-result consumption (ERRFLOW)"
 }
 
@@ -39,7 +39,16 @@ func implementsIterator(t types.Type, iface *types.Interface) bool {
 	return false
 }
 
+// c43OverwriteExceptions: functions in which an error variable is deliberately reused while it may
+// be non-nil (keyed by declared function).
+var c43OverwriteExceptions = map[string]string{
+	"p/sstable.(*Layout).Describe": "debug dump of a table's layout: the decode error of one meta-index entry is printed into the tree node (`[err: %s]`) before the loop moves on to the next entry",
+}
+
 func runC43(c *Ctx) {
+	if n := c.ErrOverwrite("C43.E4", enginePkg, c43OverwriteExceptions); n < 50 {
+		c.Unresolved("C43.E4", fmt.Sprintf("only %d stores of call results into error variables found", n))
+	}
 	if n := surveyErrIdentity(c, "C43.E3", nil, "rec.IsInvalidRecord"); n < 5 {
 		c.Unresolved("C43.E3", fmt.Sprintf("only %d identity-comparing consumers found", n))
 	}
